@@ -260,6 +260,10 @@ fn url_host(url: &str) -> Option<&str> {
     Some(&rest[..end])
 }
 
+fn mutation() -> u32 {
+    std::env::var("C16_MUT").ok().and_then(|s| s.parse().ok()).unwrap_or(0)
+}
+
 fn make_page(url: &str) -> Option<Page> {
     let host = to_ascii(url_host(url)?)?;
     let domain = registrable(&host);
@@ -276,9 +280,14 @@ fn make_page(url: &str) -> Option<Page> {
     let mut entity_lookup = BTreeSet::new();
     let mut entity_base = None;
     if let Some(p) = &suffix {
-        host_lookup.insert(p.clone());
+        if mutation() != 1 {
+            host_lookup.insert(p.clone());
+        }
         if let Some(base) = host.strip_suffix(&format!(".{}", p)) {
             for s in label_suffixes(base) {
+                if mutation() == 2 && s != base {
+                    continue;
+                }
                 entity_lookup.insert(s.to_string());
             }
             entity_base = Some(base.to_string());
@@ -529,7 +538,7 @@ fn model(rules: &[&Rule], effs: &[Eff], generichide: bool) -> (Res, Skip) {
         blocks: vec![],
         generichide,
     };
-    let blanket = (m.minus_unhide[BLANKET] | m.minus_neg[BLANKET]) != 0;
+    let blanket = (m.minus_unhide[BLANKET] | m.minus_neg[BLANKET]) != 0 && mutation() != 5;
     let mut s1_used = false;
     for b in 0..NB {
         let body = &BODIES[b];
